@@ -2129,12 +2129,95 @@ fn phase_e(ctx: &Ctx) {
 	}
 }
 
+// ------------------------------------------------------------------ phase F: the two derivation routes agree
+
+/// BIP32 has two routes to the public key of a non-hardened child: derive the private child and take its public key, or
+/// derive publicly from the parent's extended public key. Key derivation is deterministic only if both agree (view keys
+/// and watch-only wallets live on the second route). For paths of depth 1-4 over normal children: the two routes, and
+/// `ExtKeychain::derive_key(.., SwitchCommitmentType::None)`, must give the same key; through a hardened child the public
+/// route must refuse.
+fn phase_f(ctx: &Ctx) {
+	use grin_keychain::extkey_bip32::{BIP32GrinHasher, ChildNumber, ExtendedPrivKey, ExtendedPubKey};
+	let run = ctx.run;
+	let n_cases: usize = if ctx.only.is_some() { 0 } else { (ctx.budget.e_cases / 2).max(60) };
+	for idx in 0..n_cases {
+		let mut p = case_prng(run.seed, 0xF0, idx as u64);
+		let seed_idx = p.usize_below(ctx.kcs.len());
+		let kc = &ctx.kcs[seed_idx];
+		let si = &ctx.seeds[seed_idx];
+		let depth = 1 + (idx % 4) as u8;
+		let with_hardened = idx % 5 == 4;
+		let mut path = gen_path(&mut p, depth, true);
+		let hard_at = p.usize_below(depth as usize);
+		if with_hardened {
+			path.d[hard_at] |= 0x8000_0000;
+		}
+		let replay = json!({"phase": "public_derivation", "index": idx, "seed": ctx.seed_json(seed_idx), "path": path.json()});
+		let secp = kc.secp();
+		let mut h = BIP32GrinHasher::new(si.is_test);
+		let master = match ExtendedPrivKey::new_master(secp, &mut h, &si.bytes) {
+			Ok(m) => m,
+			Err(_) => continue,
+		};
+		let root_pub = ExtendedPubKey::from_private(secp, &master, &mut h);
+		let cn: Vec<ChildNumber> = (0..depth as usize).map(|i| ChildNumber::from(path.d[i])).collect();
+		let sk = match master.derive_priv(secp, &mut h, &cn) {
+			Ok(k) => k,
+			Err(_) => {
+				run.count("F.private_derivation_err_skipped", 1);
+				continue;
+			}
+		};
+		let via_priv = ExtendedPubKey::from_private(secp, &sk, &mut h);
+		run.eval(&format!("F;d={};cls={};hardened={}", depth, path.cls(), with_hardened), true);
+		// the keychain walks the same private route
+		match kc.derive_key(0, &path.id(), SwitchCommitmentType::None) {
+			Ok(k) if k == sk.secret_key => run.count("F.keychain_key_is_the_bip32_private_child", 1),
+			other => {
+				run.violation(
+					"check=public_derivation;clause=keychain_vs_bip32_private_route",
+					&format!("ExtKeychain::derive_key(.., None) differs from ExtendedPrivKey::derive_priv over the same path (derive_key ok: {})", other.is_ok()),
+					replay.clone(),
+				);
+				continue;
+			}
+		}
+		match root_pub.derive_pub(secp, &mut h, &cn) {
+			Ok(pk) => {
+				if with_hardened {
+					run.violation(
+						"check=public_derivation;clause=hardened_child_derived_publicly",
+						"ExtendedPubKey::derive_pub went through a hardened child",
+						replay.clone(),
+					);
+				} else if pk.public_key != via_priv.public_key || pk.chain_code != via_priv.chain_code || pk.depth != via_priv.depth {
+					run.violation(
+						"check=public_derivation;clause=public_route_differs_from_private_route",
+						&format!("public key / chain code derived publicly differ from those of the privately derived child at depth {}", depth),
+						replay.clone(),
+					);
+				} else {
+					run.count("F.public_route_equals_private_route", 1);
+				}
+			}
+			Err(_) if with_hardened => run.count("F.hardened_child_refused_on_the_public_route", 1),
+			Err(e) => run.violation(
+				"check=public_derivation;clause=public_route_fails",
+				&format!("ExtendedPubKey::derive_pub failed over normal children: {:?}", e),
+				replay.clone(),
+			),
+		}
+	}
+}
+
 // ------------------------------------------------------------------ minimum observations
 
 fn requirements(ctx: &Ctx) {
 	let run = ctx.run;
 	let b = ctx.budget;
 	let c = |n: &str| run.counter(n);
+	run.require("F: public derivation route equals the private one", c("F.public_route_equals_private_route"), (b.e_cases as u64 / 2).max(60) / 2);
+	run.require("F: hardened child refused on the public route", c("F.hardened_child_refused_on_the_public_route"), 5);
 	// A
 	let a_planned = (b.a_seeds as u64) * c("A.paths") * 12;
 	run.require("A: (seed,path,amount,mode) determinism cases", c("A.cases"), a_planned * 6 / 10);
@@ -2339,6 +2422,10 @@ fn main() {
 	let td = t0.elapsed().as_secs_f64();
 	if ctx.wants("aggsig") {
 		phase_e(&ctx);
+	}
+	if ctx.only.is_none() {
+		init_thread(false);
+		phase_f(&ctx);
 	}
 	let te = t0.elapsed().as_secs_f64();
 	run.extra(
